@@ -277,10 +277,12 @@ class expr_subscript(expr):
 class rng(object):
     
     def __init__(self, low, high):
-        to_expr(low)
-        self.low = pop_expr()
+        # Operands that already are expressions sit on the expression
+        # stack in argument order, so collect the upper bound first
         to_expr(high)
         self.high = pop_expr()
+        to_expr(low)
+        self.low = pop_expr()
         
 class rangelist(object):
     
@@ -295,10 +297,12 @@ class rangelist(object):
                 # This needs to be a two-element array
                 if len(a) != 2:
                     raise Exception("Range specified with " + str(len(a)) + " elements is invalid. Two elements required")
-                to_expr(a[0])
-                e0 = pop_expr()
+                # Operands that already are expressions sit on the expression
+                # stack in argument order, so collect the upper bound first
                 to_expr(a[1])
                 e1 = pop_expr()
+                to_expr(a[0])
+                e0 = pop_expr()
                 self.range_l.add_range(ExprRangeModel(e0, e1))
             elif isinstance(a, rng):
                 self.range_l.add_range(ExprRangeModel(a.low, a.high))
@@ -327,10 +331,12 @@ class rangelist(object):
             # This needs to be a two-element array
             if len(a) != 2:
                 raise Exception("Range specified with " + str(len(a)) + " elements is invalid. Two elements required")
-            to_expr(a[0])
-            e0 = pop_expr()
+            # Operands that already are expressions sit on the expression
+            # stack in argument order, so collect the upper bound first
             to_expr(a[1])
             e1 = pop_expr()
+            to_expr(a[0])
+            e0 = pop_expr()
             self.range_l.add_range(ExprRangeModel(e0, e1))
         elif isinstance(a, rng):
             self.range_l.add_range(ExprRangeModel(a.low, a.high))
